@@ -1225,6 +1225,8 @@ class Evaluator:
         if op == "!":
             if _is_boolish(v):
                 return b_not(v)
+            if self.F.ty(e) == "bool" and isinstance(v, RatFunc):
+                return b_not(self.as_bool(v))  # `!` of an opaque bool is logical negation, not a bit pattern
             return self.ctx.sapp("bitnot", [v])
         raise Opaque("unary %s" % op)
 
@@ -2152,6 +2154,8 @@ class Evaluator:
     def op_not(self, args, fr, c, e):
         if _is_boolish(args[0]):
             return b_not(args[0])
+        if e is not None and self.F.ty(e) == "bool" and isinstance(self.deref(args[0]), RatFunc):
+            return b_not(self.as_bool(self.deref(args[0])))  # `!` of an opaque bool is logical negation, not a bit pattern
         return self.ctx.sapp("bitnot", args)
 
     def op_neg(self, args, fr, c, e):
